@@ -71,6 +71,7 @@ def main():
                 out["checks"][p] = {"exit": rc, "caught": rc == 1, "wall_s": round(time.time() - t0, 1), "lines": [l[:700] for l in lines[:6]]}
         finally:
             run(["git", "-C", "/repo", "checkout", "--", "."], "/repo")
+            run(["git", "-C", "/repo", "clean", "-fdq"], "/repo")
     print(json.dumps(out, indent=1))
     if keep and confirmed:
         dst = os.path.join("/verif/seeded", keep)
